@@ -28,6 +28,7 @@ THEOREMS = [
     'C13.linear_field_change', 'C13.linear_field_one_burgers',
     'C13.array_old_id', 'C13.array_deletion_count_partial', 'C13.tilted_det', 'C13.expected_edge_orthogonal',
     'C13.array_kept_boundary_atoms_apart',
+    'C13.disregistry_planes_adjoin', 'C13.disregistry_same_gap', 'C13.disregistry_common_column',
 ]
 PARTIAL = {
     'array deletion count': 'array_deletion_count_partial proves that an accepted array has removed exactly `expected` atoms '
@@ -98,6 +99,11 @@ def _cubicC(c11, c12, c44):
     return ('cubic', dict(C11=c11, C12=c12, C44=c44))
 
 
+# a positive definite stiffness without any symmetry beyond the monoclinic one (the code does not check that the
+# constants fit the crystal family)
+_LOWSYM_CIJ = [[2.0, 0.8, 0.7, 0.0, 0.1, 0.0], [0.8, 2.2, 0.75, 0.0, 0.05, 0.0], [0.7, 0.75, 1.9, 0.0, -0.08, 0.0],
+               [0.0, 0.0, 0.0, 0.6, 0.0, 0.03], [0.1, 0.05, -0.08, 0.0, 0.7, 0.0], [0.0, 0.0, 0.0, 0.03, 0.0, 0.65]]
+
 CRYSTALS = {
     # name: (setting, family, fractional positions, atypes, symbols, elastic constants)
     'fcc': ('f', 'cubic', [(0, 0, 0), (F(1, 2), F(1, 2), 0), (F(1, 2), 0, F(1, 2)), (0, F(1, 2), F(1, 2))], [1, 1, 1, 1],
@@ -117,6 +123,9 @@ CRYSTALS = {
             dict(C11=0.45, C12=0.4, C13=0.41, C33=0.44, C44=0.065, C66=0.12)),
     'ortho_c': ('c', 'orthorhombic', [(0, 0, 0), (F(1, 2), F(1, 2), 0)], [1, 1], ['U'],
                 dict(C11=2.1, C12=0.46, C13=0.22, C22=2.0, C23=1.1, C33=2.7, C44=1.2, C55=0.73, C66=0.74)),
+    # low symmetry: every rotated cell is tilted (cut vector off the slip-plane normal, in-plane vector off m)
+    'mono': ('p', 'monoclinic', [(0, 0, 0)], [1], ['Pu'], dict(Cij=_LOWSYM_CIJ)),
+    'tric': ('p', 'triclinic', [(0, 0, 0), (F(1, 4), F(1, 2), F(1, 2))], [1, 2], ['Tc', 'Ti'], dict(Cij=_LOWSYM_CIJ)),
 }
 # lattice translations of the conventional cell (besides integer vectors)
 CENTRING = {'p': [], 'f': [(F(1, 2), F(1, 2), 0), (F(1, 2), 0, F(1, 2)), (0, F(1, 2), F(1, 2))],
@@ -135,7 +144,16 @@ def lattice_params(name, rng):
         return dict(a=rng.choice([3.0, 4.0, 3.5, u(2.8, 4.2)]))
     if fam == 'hexagonal':
         a = rng.choice([3.0, u(2.8, 3.4)])
-        return dict(a=a, c=round(a * rng.choice([1.6, 1.633, u(1.55, 1.7)]), 3))
+        return dict(a=a, c=round(a * rng.choice([1.6, 1.633, 1.856, u(1.55, 1.9)]), 3))
+    if fam in ('monoclinic', 'triclinic'):
+        # box vectors [[a,0,0],[xy,b,0],[xz,yz,c]] with dyadic entries (exact Gram matrix)
+        q = lambda lo, hi: round(rng.uniform(lo, hi) * 8) / 8
+        lp = dict(a=rng.choice([3.0, q(2.75, 3.5)]), b=rng.choice([4.0, q(3.25, 4.25)]), c=rng.choice([3.5, q(3.0, 4.5)]),
+                  xy=0.0, xz=rng.choice([-0.75, 0.5, q(-1.0, 1.0)]), yz=0.0)
+        if fam == 'triclinic':
+            lp['xy'] = rng.choice([0.5, -0.25, q(-0.75, 0.75)])
+            lp['yz'] = rng.choice([0.25, -0.5, q(-0.75, 0.75)])
+        return lp
     if fam == 'tetragonal':
         a = rng.choice([3.0, u(2.9, 3.5)])
         return dict(a=a, c=round(a * rng.choice([1.25, 1.5, u(1.1, 1.6)]), 3))
@@ -153,6 +171,8 @@ def build_ucell(name, lp):
         box = am.Box.hexagonal(lp['a'], lp['c'])
     elif fam == 'tetragonal':
         box = am.Box.tetragonal(lp['a'], lp['c'])
+    elif fam in ('monoclinic', 'triclinic'):
+        box = am.Box(vects=np.array([[lp['a'], 0.0, 0.0], [lp['xy'], lp['b'], 0.0], [lp['xz'], lp['yz'], lp['c']]]))
     else:
         box = am.Box.orthorhombic(lp['a'], lp['b'], lp['c'])
     atoms = am.Atoms(atype=atypes, pos=np.array([[float(x) for x in p] for p in fpos]))
@@ -174,6 +194,9 @@ def _metric(name, lp):
     a = F(str(lp['a']))
     if fam == 'cubic':
         return [[a * a, 0, 0], [0, a * a, 0], [0, 0, a * a]]
+    if fam in ('monoclinic', 'triclinic'):
+        v = [[a, 0, 0], [F(str(lp['xy'])), F(str(lp['b'])), 0], [F(str(lp['xz'])), F(str(lp['yz'])), F(str(lp['c']))]]
+        return [[sum(v[i][k] * v[j][k] for k in range(3)) for j in range(3)] for i in range(3)]
     c = F(str(lp['c']))
     if fam == 'hexagonal':
         return [[a * a, -a * a / 2, 0], [-a * a / 2, a * a, 0], [0, 0, c * c]]
@@ -348,6 +371,46 @@ def gen_config(rng, d, kind, nmax=220):
         c[d.motionindex] = rng.choice([0.25, -0.5, 0.125])
         cfg['center'] = c
         cfg['centerscale'] = True
+    elif q < 0.80:
+        # the core (and with it the slip plane) moved along the slip-plane normal onto another gap between atomic
+        # planes: shifts[i] - shifts[j] (+ whole cells) is again midway between two planes; sometimes off the middle
+        cut = d.cutindex
+        W = float(d.rcell.box.vects[cut, cut])
+        sh = np.asarray(d.shifts, dtype=float)[:, cut]
+        if cfg.get('shiftindex') is not None and len(sh):
+            si = float(sh[cfg['shiftindex']])
+        elif cfg.get('shift') is not None and not cfg.get('shiftscale'):
+            si = float(cfg['shift'][cut])
+        else:
+            si = None
+        sm_ = cfg.get('sizemults')
+        H = W * (2 if sm_ is None else max(2, abs(int(sm_[cut]))))
+        if si is not None:
+            zs = np.unique(np.round(np.mod(np.asarray(d.rcell.atoms.pos)[:, cut], W), 6))
+            gaps = np.diff(np.append(zs, zs[0] + W))
+            cn = None
+            for _ in range(12):
+                t = si - float(sh[rng.randrange(len(sh))]) + rng.choice([-2, -1, 0, 0, 1, 2]) * W
+                if abs(t) > 1e-9 and abs(t) < 0.3 * H:
+                    cn = t
+                    break
+            if cn is None:
+                cn = si - float(sh[rng.randrange(len(sh))])
+            if rng.random() < 0.3:
+                cn += round(rng.uniform(-0.3, 0.3) * float(gaps.min()) / 2, 4)
+            c = [0.0, 0.0, 0.0]
+            c[cut] = float(cn)
+            if rng.random() < 0.6:
+                c[d.motionindex] = round(rng.uniform(-1.5, 1.5), 3)
+            if rng.random() < 0.2:
+                c[line] = round(rng.uniform(-1, 1), 3)
+            cfg['center'] = c
+    # the point given to disregistry() to fix the slip plane: the centre itself, or another point of the same gap
+    q = rng.random()
+    if q < 0.35:
+        cfg['planepos'] = 'center'
+    elif q < 0.65:
+        cfg['planepos'] = [round(rng.uniform(-3, 3), 3), round(rng.uniform(-2, 2), 3), round(rng.uniform(-0.4, 0.4), 3)]
     q = rng.random()
     if q < 0.75:
         cfg['boundarywidth'] = round(rng.uniform(0.3, 3.5), 3)
@@ -367,7 +430,7 @@ def gen_config(rng, d, kind, nmax=220):
 
 def run_config(d, cfg):
     """call the real generator.  -> ('ok', base, disl) | ('err', class, message)"""
-    kw = {k: v for k, v in cfg.items() if k not in ('kind', 'as_tuple')}
+    kw = {k: v for k, v in cfg.items() if k not in ('kind', 'as_tuple', 'planepos', 'probe')}
     given = None
     if kw.get('sizemults') is not None:
         given = tuple(kw['sizemults']) if cfg.get('as_tuple') else list(kw['sizemults'])
@@ -524,6 +587,15 @@ SPECIAL = [
     ('sc', dict(a=3.0), ['1', '0', '0'], [0, 1, 0], [0, 0, 1]),                  # edge, axis aligned
     ('b2', dict(a=3.0), ['1', '0', '0'], [1, 0, 0], [0, 1, 1]),                  # screw on {011}
     ('l12', dict(a=4.0), ['1', '-1', '0'], [1, 1, -2], [1, 1, 1]),               # superdislocation, edge
+    # rotated cells tilted in the m-n plane (the lattice vector nearest the plane normal is not along it) and, for the
+    # low-symmetry cells, also within the slip plane (the in-plane vector nearest m is not perpendicular to the line)
+    ('hcp', dict(a=2.665, c=4.946), ['1', '1', '-1'], [-1, 1, 0], [1, 1, 2]),    # (11-22)<c+a> edge, c/a = 1.856
+    ('hcp', dict(a=3.0, c=4.8), ['1', '1', '-1'], [1, 1, -1], [1, 1, 2]),        # (11-22)<c+a> screw
+    ('bct', dict(a=3.0, c=3.75), ['1/2', '1/2', '1/2'], [0, 1, 0], [1, 0, -1]),  # (10-1) mixed
+    ('ortho_c', dict(a=3.0, b=4.5, c=3.75), ['1/2', '1/2', '0'], [0, 0, 1], [1, -1, 0]),   # (1-10) edge
+    ('mono', dict(a=3.0, b=4.0, c=3.5, xy=0.0, xz=-0.75, yz=0.0), ['1', '0', '-1'], [0, 1, 0], [1, 0, 1]),
+    ('mono', dict(a=3.0, b=4.0, c=3.5, xy=0.0, xz=-0.75, yz=0.0), ['1', '0', '0'], [0, 0, 1], [0, 1, 0]),
+    ('tric', dict(a=3.0, b=3.5, c=4.0, xy=0.5, xz=-0.75, yz=0.25), ['1', '0', '-1'], [0, 1, 0], [1, 0, 1]),
 ]
 
 
@@ -804,6 +876,118 @@ def _correspond_config(ctx, case, raw, ucell, d, cfg, stats, jobs):
                                                   cm.fr(width), cm.fr(cutoff), nsym, len(tab), cm.frs(tab))
         marg = _array_margins(np, d, full, center, cutoff)
         jobs.append((line, lambda out: _compare_array(ctx, np, d, cfg, res, out, label, info, stats, width, full, marg)))
+    if res[0] == 'ok':
+        _correspond_disreg(ctx, np, raw, d, cfg, res, label, info, stats)
+        if kind == 'mono':
+            _correspond_region(ctx, np, raw, d, cfg, res, label, info, stats)
+
+
+def _correspond_region(ctx, np, raw, d, cfg, res, label, info, stats):
+    """the region model against the generator for boundary widths immediately on either side of an atom's depth below
+    every face (box) / distance from the line (cylinder): driver op `region` on the real positions and reference box."""
+    base, disl = res[1], res[2]
+    shape = cfg.get('boundaryshape', 'cylinder')
+    sc = float(np.abs(np.asarray(base.box.vects)).max())
+    for pc in _probe_cfgs(np, ctx.rng, d, base, disl, cfg, shape, sc, nmax=ctx.n(4, 8)):
+        pres = run_config(d, pc)
+        w = pc['boundarywidth']
+        line = 'region %s %s %s %s %s %s %d %s' % (raw['m'], raw['n'], shape, cm.fr(w), cm.frs(np.asarray(base.box.vects)),
+                                                  cm.frs(np.asarray(base.box.origin)), disl.natoms,
+                                                  cm.frs(np.asarray(disl.atoms.pos)))
+        out = ctx.driver.ask(line)
+        stats['region'] = stats.get('region', 0) + 1
+        ctx.stats.case('region:' + shape, (label, w), nontrivial=(pres[0] == 'ok'))
+        pinfo = dict(info, cfg=pc)
+        plab = label.rsplit(" {'kind'", 1)[0] + ' ' + str(pc)
+        if out.startswith('err:'):
+            if pres[0] != 'err' or pres[1] != out[4:]:
+                ctx.disagree('region:refusal', f'{plab}: model {out}, implementation '
+                             f'{pres[0] if pres[0] == "ok" else pres[1:]}', pinfo)
+            continue
+        if pres[0] == 'err':
+            ctx.disagree('region:refusal', f'{plab}: implementation raised {pres[1:]}, model accepts', pinfo)
+            continue
+        f = _split(out)
+        flags = [t == '1' for t in f[1].split()]
+        near = [t == '1' for t in f[2].split()]
+        got = (np.asarray(pres[2].atoms.atype) != np.asarray(pres[1].atoms.atype)).tolist()
+        if len(got) != len(flags):
+            ctx.disagree('region:natoms', f'{plab}: {len(got)} atoms vs model {len(flags)}', pinfo)
+            continue
+        bad = [i for i, (a, b) in enumerate(zip(got, flags)) if a != b and not near[i]]
+        stats['exempt_near'] += sum(1 for i, (a, b) in enumerate(zip(got, flags)) if a != b and near[i])
+        if bad:
+            i = bad[0]
+            ctx.disagree('region:boundary', f'{plab}: atom {i} at {np.asarray(pres[2].atoms.pos)[i].tolist()} is '
+                         f'{"" if got[i] else "not "}re-typed, the model region says {"outside" if flags[i] else "inside"} '
+                         f'({len(bad)} atoms differ)', pinfo)
+            return
+
+
+def _correspond_disreg(ctx, np, raw, d, cfg, res, label, info, stats):
+    """atomman.defect.disregistry against the Lean model (driver op `disreg`) on the generated pair of systems, with the
+    plane position at the core centre, elsewhere in the same gap, and in other gaps (also outside the crystal)."""
+    import atomman as am
+    base, disl = res[1], res[2]
+    if base.natoms != disl.natoms or base.natoms > 400:
+        return
+    m = np.asarray(d.dislsol.m, dtype=float)
+    n = np.asarray(d.dislsol.n, dtype=float)
+    ax = {'x': [1.0, 0.0, 0.0], 'y': [0.0, 1.0, 0.0], 'z': [0.0, 0.0, 1.0]}
+    if m.tolist() != ax[raw['m']] or n.tolist() != ax[raw['n']]:
+        ctx.disagree('disreg:axes', f'{label}: dislsol.m, n = {m.tolist()}, {n.tolist()} are not the axes {raw["m"]}, {raw["n"]}',
+                     info)
+        return
+    rng = ctx.rng
+    center = np.zeros(3) if cfg.get('center') is None else np.asarray(cfg['center'], dtype=float)
+    if cfg.get('centerscale'):
+        center = d.rcell.box.vector_crystal_to_cartesian(center)
+    y = np.asarray(base.atoms.pos).dot(n)
+    pps = [None, center.copy()]
+    q = np.array([rng.uniform(-3, 3) for _ in range(3)])
+    q = q - q.dot(n) * n + rng.uniform(float(y.min()) - 0.5, float(y.max()) + 0.5) * n
+    pps.append(q)
+    if rng.random() < 0.5:
+        ys = np.unique(y)
+        pps.append(float(ys[rng.randrange(len(ys))]) * n)      # exactly on an atomic plane
+    disp = np.asarray(am.displacement(base, disl))
+    for pp in pps:
+        kw = {} if pp is None else {'planepos': pp}
+        try:
+            x, dr = am.defect.disregistry(base, disl, m=m, n=n, **kw)
+            impl = 'ok'
+        except Exception as e:  # noqa
+            impl = _err_class(e).split()[0]
+        ppv = np.zeros(3) if pp is None else pp
+        out = ctx.driver.ask('disreg %s %s %s %d %s %s' % (raw['m'], raw['n'], cm.frs(ppv), base.natoms,
+                                                          cm.frs(np.asarray(base.atoms.pos)), cm.frs(disp)))
+        stats['disreg'] = stats.get('disreg', 0) + 1
+        ctx.stats.case('disreg', (label, tuple(ppv.tolist())), nontrivial=(impl == 'ok'))
+        dinfo = dict(info, planepos=None if pp is None else pp.tolist())
+        if out.startswith('err:'):
+            if impl != out[4:]:
+                ctx.disagree('disreg:refusal', f'{label}: disregistry(planepos={ppv.tolist()}): model {out}, implementation '
+                             f'{impl}', dinfo)
+            continue
+        f = _split(out)
+        if float(F(f[3])) < 1e-9:
+            stats['exempt_near'] += 1
+            continue
+        if impl != 'ok':
+            ctx.disagree('disreg:refusal', f'{label}: disregistry(planepos={ppv.tolist()}) raised {impl}, model accepts', dinfo)
+            continue
+        mc = np.array(_fl(f[1]))
+        mv = np.array(_fl(f[2])).reshape(-1, 3)
+        sc = max(1.0, float(np.abs(disp).max()))
+        if len(mc) != len(x) or np.abs(mc - np.asarray(x)).max() > 0.0:
+            ab = _fl(f[0][3:])
+            ctx.disagree('disreg:coord', f'{label}: disregistry(planepos={ppv.tolist()}) returned {len(x)} coordinates, the '
+                         f'model {len(mc)} (planes at {ab[1]} and {ab[0]} adjoin the slip plane at {float(ppv.dot(n))})', dinfo)
+            continue
+        if np.abs(mv - np.asarray(dr)).max() > 1e-9 * sc:
+            i = int(np.argmax(np.abs(mv - np.asarray(dr)).max(axis=1)))
+            ctx.disagree('disreg:values', f'{label}: disregistry(planepos={ppv.tolist()}) at x = {x[i]}: {dr[i].tolist()}, '
+                         f'model {mv[i].tolist()}', dinfo)
 
 
 def _compare_base(ctx, np, kind, full, bbox, bpos, btyp, w1, label, info):
@@ -1124,38 +1308,122 @@ def _oracle_reference(ctx, np, d, base, shift, mults_total, info, label, key):
     return keys
 
 
-def _region_outside(np, d, base_box, width, shape, pos):
-    """independent evaluation of the boundary region: distances to the faces from the reciprocal vectors."""
-    vects = np.asarray(base_box.vects)
-    origin = np.asarray(base_box.origin)
-    rec = np.linalg.inv(vects).T                         # rec[i] . vects[j] = delta_ij
+def _fx(x):
+    return F(float(x))
+
+
+def _fcross(a, b):
+    return [a[1] * b[2] - a[2] * b[1], a[2] * b[0] - a[0] * b[2], a[0] * b[1] - a[1] * b[0]]
+
+
+def _fdot(a, b):
+    return a[0] * b[0] + a[1] * b[1] + a[2] * b[2]
+
+
+def _faces(np, base_box, dirs):
+    """the faces across the directions `dirs` from the ACTUAL box vectors, exactly: (inward normal N (not normalised),
+    |N|^2, a point of the face) for the lower and the upper face of each direction."""
+    V = [[_fx(x) for x in r] for r in np.asarray(base_box.vects)]
+    O = [_fx(x) for x in np.asarray(base_box.origin)]
+    out = []
+    for i in dirs:
+        N = _fcross(V[(i + 1) % 3], V[(i + 2) % 3])
+        if _fdot(N, V[i]) < 0:
+            N = [-x for x in N]
+        N2 = _fdot(N, N)
+        out.append((i, 0, N, N2, O))
+        out.append((i, 1, [-x for x in N], N2, [O[k] + V[i][k] for k in range(3)]))
+    return V, O, out
+
+
+def _region_outside(np, d, base_box, width, shape, pos, exact_limit=700):
+    """independent evaluation of the stated boundary region with exact rational geometry from the actual box vectors of
+    the reference system (no atomman region class, no Box.planes).
+    box: within `width` of one of the four faces across the two non-periodic directions (array: the two faces across the
+    cut direction); cylinder: farther from the line through the Cartesian origin along the line vector than (distance of
+    that line to the nearest of the four faces) - width.
+    -> (outside, margin to the region surface, extra) ; extra: per-atom index of the nearest face and depths (box) or
+    (R0, r) (cylinder).  Atoms are decided in Fractions (all of them up to `exact_limit` atoms, else those within
+    1e-3 of the surface; the others in floats)."""
     line = d.lineindex
+    pos = np.asarray(pos, dtype=float)
+    w = _fx(width)
+    wf = float(width)
     if shape == 'box' or shape == 'array':
         dirs = [d.cutindex] if shape == 'array' else [i for i in range(3) if i != line]
-        out = np.zeros(len(pos), dtype=bool)
-        marg = np.full(len(pos), np.inf)
-        for i in dirs:
-            nhat = rec[i] / np.linalg.norm(rec[i])
-            h = vects[i].dot(nhat)                       # distance between the two faces
-            t = (pos - origin).dot(nhat)                 # height above the lower face
-            out |= (t < width) | (t > h - width)
-            marg = np.minimum(marg, np.minimum(np.abs(t - width), np.abs(t - (h - width))))
-        return out, marg
+        V, O, faces = _faces(np, base_box, dirs)
+        depth = np.empty((len(faces), len(pos)))
+        for k, (i, up, N, N2, pt) in enumerate(faces):
+            Nf = np.array([float(x) for x in N]) / math.sqrt(float(N2))
+            depth[k] = (pos - np.array([float(x) for x in pt])).dot(Nf)
+        dmin = depth.min(axis=0)
+        out = dmin < wf
+        marg = np.abs(depth - wf).min(axis=0)
+        sc = float(np.abs(np.asarray(base_box.vects)).max())
+        sel = range(len(pos)) if len(pos) <= exact_limit else np.where(marg < 1e-3 * sc)[0]
+        w2 = w * w
+        for a in sel:
+            pa = [_fx(x) for x in pos[a]]
+            o = False
+            for (i, up, N, N2, pt) in faces:
+                g = _fdot(N, [pa[k] - pt[k] for k in range(3)])          # depth * |N|
+                if g < 0 or g * g < w2 * N2:
+                    o = True
+                    break
+            out[a] = o
+        return out, marg, {'nearest': depth.argmin(axis=0), 'depth': dmin}
     # cylinder about the line through the Cartesian origin along vects[line]
-    ax = vects[line] / np.linalg.norm(vects[line])
-    dists = []
-    for i in range(3):
-        if i == line:
-            continue
-        nhat = rec[i] / np.linalg.norm(rec[i])
-        nhat = nhat - nhat.dot(ax) * ax                  # faces contain the line direction: already perpendicular
-        nhat = nhat / np.linalg.norm(nhat)
-        dists.append(abs((origin).dot(nhat)))
-        dists.append(abs((origin + vects[i]).dot(nhat)))
-    radius = min(dists) - width
-    r = pos - np.outer(pos.dot(ax), ax)
-    rr = np.linalg.norm(r, axis=1)
-    return rr > radius, np.abs(rr - radius)
+    dirs = [i for i in range(3) if i != line]
+    V, O, faces = _faces(np, base_box, dirs)
+    L = V[line]
+    L2 = _fdot(L, L)
+    R02 = min(_fdot(N, pt) ** 2 / N2 for (i, up, N, N2, pt) in faces)         # the faces contain the line direction
+    R0 = math.sqrt(float(R02))
+    Lf = np.array([float(x) for x in L]) / math.sqrt(float(L2))
+    rr = np.linalg.norm(np.cross(pos, Lf), axis=1)
+    radius = R0 - wf
+    out = rr > radius
+    marg = np.abs(rr - radius)
+    if R02 > w * w:
+        sc = float(np.abs(np.asarray(base_box.vects)).max())
+        sel = range(len(pos)) if len(pos) <= exact_limit else np.where(marg < 1e-3 * sc)[0]
+        for a in sel:
+            pa = [_fx(x) for x in pos[a]]
+            cr = _fcross(pa, L)
+            A = _fdot(cr, cr) / L2 - R02 - w * w              # r > R0 - w  <=>  r^2 - R0^2 - w^2 > -2 w R0
+            out[a] = bool(A >= 0 or A * A < 4 * w * w * R02)
+    return out, marg, {'R0': R0, 'r': rr, 'positive': bool(R02 > w * w)}
+
+
+def _probe_cfgs(np, rng, d, base, disl, cfg, shape, sc, nmax=8):
+    """boundary widths placed immediately on either side of the depth of an atom below each face of the region (box /
+    array) or of an atom's distance from the line (cylinder): the re-typing as a function of the width changes exactly
+    there, so every face of the region is located to `eps` (a displaced, tilted or shared face shows as one atom)."""
+    pos = np.asarray(disl.atoms.pos)
+    eps = 1e-5 * sc
+    widths = []
+    if shape in ('box', 'array'):
+        _o, _m, ex = _region_outside(np, d, base.box, 1.0, shape, pos, exact_limit=0)
+        nearest, depth = ex['nearest'], ex['depth']
+        for f in sorted(set(nearest.tolist())):
+            ids = np.where((nearest == f) & (depth > 50 * eps))[0]
+            if len(ids):
+                a = int(ids[rng.randrange(len(ids))])
+                widths += [float(depth[a]) - eps, float(depth[a]) + eps]
+    else:
+        _o, _m, ex = _region_outside(np, d, base.box, 0.0, shape, pos, exact_limit=0)
+        ids = np.where(ex['r'] < ex['R0'] - 50 * eps)[0]
+        for _ in range(3):
+            if len(ids):
+                a = int(ids[rng.randrange(len(ids))])
+                widths += [ex['R0'] - float(ex['r'][a]) - eps, ex['R0'] - float(ex['r'][a]) + eps]
+    out = []
+    for w in widths[:nmax]:
+        c = {k: v for k, v in cfg.items() if k not in ('boundaryscale',)}
+        c['boundarywidth'] = float(w)
+        c['probe'] = True
+        out.append(c)
+    return out
 
 
 def _min_image_pairs(np, pos, vects, pbc, thresh, across_only=False):
@@ -1179,6 +1447,25 @@ def _min_image_pairs(np, pos, vects, pbc, thresh, across_only=False):
     return math.sqrt(best[0]), best[1]
 
 
+def _close_pairs(np, pos, vects, pbc, thresh):
+    """all pairs closer than `thresh` through a periodic image (-1..1), closest first: (distance, i, j)."""
+    n = len(pos)
+    rng3 = [(-1, 0, 1) if p else (0,) for p in pbc]
+    out = []
+    for a in rng3[0]:
+        for b in rng3[1]:
+            for c in rng3[2]:
+                if not (a or b or c):
+                    continue
+                sft = a * vects[0] + b * vects[1] + c * vects[2]
+                dd = pos[:, None, :] - pos[None, :, :] + sft
+                r2 = (dd ** 2).sum(axis=2)
+                ii, jj = np.where(r2 < thresh * thresh)
+                out += [(math.sqrt(r2[i, j]), int(i), int(j)) for i, j in zip(ii, jj)]
+    out.sort()
+    return out
+
+
 def _disregistry_check(ctx, np, d, base, disl, kind, cfg, info, label, ucell_a=1.0):
     """the disregistry across the slip plane accumulates to one Burgers vector (up to the tail of the elastic field
     beyond the finite width: |tail| <= kappa * |b| * 2 h / (pi X) per side for plane half-spacing h, half-width X)."""
@@ -1189,19 +1476,43 @@ def _disregistry_check(ctx, np, d, base, disl, kind, cfg, info, label, ucell_a=1
     center = np.zeros(3) if cfg.get('center') is None else np.asarray(cfg['center'], dtype=float)
     if cfg.get('centerscale'):
         center = d.rcell.box.vector_crystal_to_cartesian(center)
-    if abs(center.dot(n)) > 1e-12:
-        return                                            # core off the slip plane chosen by the shift: not the clause's case
+    # the slip plane passes through the core centre; it must lie in a gap between two atomic planes of the reference
+    y = np.asarray(base.atoms.pos).dot(n)
+    xs = np.asarray(base.atoms.pos).dot(m)
+    cn = float(center.dot(n))
+    if not (np.any(y > cn) and np.any(y < cn)):
+        return
+    ya, yb = y[y > cn].min(), y[y < cn].max()
+    h = (ya - yb) / 2
+    if min(ya - cn, cn - yb) < 0.1 * h or h < 1e-4:
+        return                                            # an atomic plane (nearly) on the slip plane: not the clause's case
+    if kind == 'array' and abs(cn) > 1e-12:
+        return                                            # (arrays: the cut of the linear field is tied to the mid-plane)
+    # the point handed to disregistry(): default (only when the plane passes through the origin), the centre, or
+    # another point of the same gap (moved within the slip plane and, by less than the gap, along the normal)
+    pp = cfg.get('planepos')
+    xi_ = np.cross(m, n)
+    if pp is None and abs(cn) <= 1e-12:
+        kwp = {}
+    elif pp is None or pp == 'center':
+        kwp = {'planepos': center.copy()}
+    else:
+        kwp = {'planepos': center + pp[0] * m + pp[1] * xi_ + pp[2] * ((ya - cn) if pp[2] > 0 else (cn - yb)) * n}
     try:
-        x, dr = am.defect.disregistry(base, disl, m=m, n=n)
+        x, dr = am.defect.disregistry(base, disl, m=m, n=n, **kwp)
     except Exception as e:  # noqa
-        ctx.violate('disregistry:raises', f'{label}: disregistry raised {type(e).__name__}: {e}', info)
+        ctx.violate('disregistry:raises', f'{label}: disregistry({kwp}) raised {type(e).__name__}: {e}', info)
         return
     if len(x) < 4:
         return
-    y = np.asarray(base.atoms.pos).dot(n)
-    xs = np.asarray(base.atoms.pos).dot(m)
-    ya, yb = y[y > 0].min(), y[y < 0].max()
-    h = (ya - yb) / 2
+    # the profile must be that of the two planes adjoining the slip plane: its coordinates are their atomic columns
+    cols = np.unique(np.round(np.concatenate([xs[np.isclose(y, ya)], xs[np.isclose(y, yb)]]), 7))
+    got = np.unique(np.round(np.asarray(x), 7))
+    if len(cols) != len(got) or np.abs(cols - got).max() > 1e-6:
+        ctx.violate('disregistry:planes', f'{label}: disregistry({kwp}) returned {len(got)} coordinates '
+                    f'[{got[0]:.4f} .. {got[-1]:.4f}]; the planes at {yb:.4f} and {ya:.4f} adjoining the slip plane (at '
+                    f'{cn:.4f} along n) have {len(cols)} atomic columns [{cols[0]:.4f} .. {cols[-1]:.4f}]', info)
+        return
     xa = xs[np.isclose(y, ya)]
     xb = xs[np.isclose(y, yb)]
     # columns exist on both sides of the slip plane only in the common range (np.interp holds the end values beyond)
@@ -1217,6 +1528,31 @@ def _disregistry_check(ctx, np, d, base, disl, kind, cfg, info, label, ucell_a=1
         return
     il, ir = sel[0], sel[-1]
     xc = center.dot(m)
+    # displacements are minimum-image vectors: where the component along the line reaches half the period it is folded
+    # either way, and the interpolation between the staggered columns of the two planes mixes folded and unfolded
+    # values.  Use the contiguous run of columns about the core in which no atom of the two planes is near the fold.
+    lv0 = np.asarray(disl.box.vects)[d.lineindex]
+    onp = np.isclose(y, ya) | np.isclose(y, yb)
+    dsp = np.asarray(am.displacement(base, disl))[onp]
+    frac = np.abs(dsp.dot(lv0)) / lv0.dot(lv0)
+    ambx = xs[onp][frac > 0.45]
+    if len(ambx):
+        amb = np.array([bool(np.any(np.abs(ambx - xx) < 1e-6)) for xx in x])
+        ic = int(np.argmin(np.abs(np.asarray(x) - xc)))
+        if amb[ic]:
+            return
+        l_, r_ = ic, ic
+        while l_ > 0 and not amb[l_ - 1]:
+            l_ -= 1
+        while r_ < len(x) - 1 and not amb[r_ + 1]:
+            r_ += 1
+        if l_ > 0:
+            l_ += 1
+        if r_ < len(x) - 1:
+            r_ -= 1
+        il, ir = max(il, l_), min(ir, r_)
+        if ir - il < 3:
+            return
     Xl, Xr = xc - x[il], x[ir] - xc
     if Xl <= 2 * h or Xr <= 2 * h:
         return
@@ -1262,11 +1598,66 @@ def _disregistry_check(ctx, np, d, base, disl, kind, cfg, info, label, ucell_a=1
                     f'{np.round(b, 4).tolist()}', info)
 
 
+def _requested_shift(ctx, np, d, cfg, info, label, key):
+    """the shift the caller asked for (explicit, box-relative, or an entry of the list of offered shifts, which
+    _oracle_shifts checks); the object must report it as its current shift.  None after a violation."""
+    if cfg.get('shift') is not None:
+        req = np.asarray(cfg['shift'], dtype=float)
+        if cfg.get('shiftscale'):
+            req = req.dot(np.asarray(d.rcell.box.vects))
+    elif cfg.get('shiftindex') is not None:
+        req = np.asarray(d.shifts, dtype=float)[cfg['shiftindex']]
+    else:
+        return np.asarray(d.shift, dtype=float)
+    got = np.asarray(d.shift, dtype=float)
+    if got.shape != (3,) or np.abs(got - req).max() > 1e-9 * max(1.0, float(np.abs(req).max())):
+        ctx.violate(key + ':shift-request', f'{label}: the generator used shift {got.tolist()}, requested was '
+                    f'{req.tolist()} ({"shift" if cfg.get("shift") is not None else "shiftindex"})', info)
+        return None
+    return req
+
+
+def _check_boundary(ctx, np, d, cfg, base, disl, shape, width, info, label, key):
+    """re-typed (atype + natypes of the reference, symbols doubled) exactly the atoms outside the stated region."""
+    nt = base.natypes
+    ta, tb = np.asarray(disl.atoms.atype), np.asarray(base.atoms.atype)
+    sc = float(np.abs(np.asarray(base.box.vects)).max())
+    if not np.all((ta == tb) | (ta == tb + nt)):
+        ctx.violate(key + ':types', f'{label}: atom types are not the reference types (+ natypes for the boundary)', info)
+        return False
+    if width > 0.0:
+        out, marg, ex = _region_outside(np, d, base.box, width, shape, np.asarray(disl.atoms.pos))
+        if shape == 'cylinder' and not ex['positive']:
+            ctx.violate(key + ':radius', f'{label}: boundary width {width} >= distance {ex["R0"]} of the line to the nearest '
+                        f'face, yet a system was returned', info)
+            return False
+        flagged = ta != tb
+        bad = np.where((flagged != out) & (marg > 1e-7 * sc))[0]
+        if len(bad):
+            i = int(bad[0])
+            ctx.violate(key + ':boundary', f'{label}: atom {i} at {np.asarray(disl.atoms.pos)[i].tolist()} is '
+                        f'{"outside" if out[i] else "inside"} the {shape} region of width {width} (by {marg[i]:.3g}) but '
+                        f'{"is" if flagged[i] else "is not"} re-typed ({len(bad)} atoms)', info)
+            return False
+        if tuple(disl.symbols) != tuple(base.symbols) * 2:
+            ctx.violate(key + ':symbols', f'{label}: symbols {disl.symbols}', info)
+            return False
+    elif np.any(ta != tb):
+        ctx.violate(key + ':boundary-zero-width', f'{label}: atoms re-typed although boundarywidth = 0', info)
+        return False
+    return True
+
+
 def _oracle_mono(ctx, np, case, raw, ucell, d, cfg, res, info, label):
     key = 'mono'
     base, disl = res[1], res[2]
     line, cut, motion = d.lineindex, d.cutindex, d.motionindex
-    shift = np.asarray(d.shift, dtype=float)
+    shift = _requested_shift(ctx, np, d, cfg, info, label, key)
+    if shift is None:
+        return
+    if d.base_system is not base or d.disl_system is not disl:
+        ctx.violate(key + ':attributes', f'{label}: base_system / disl_system of the object are not the returned systems', info)
+        return
     qs, center, width = _resolved(d, cfg, ucell)
     V = abs(np.linalg.det(np.asarray(base.box.vects)))
     mt = int(round(V / abs(np.linalg.det(np.asarray(d.rcell.box.vects)))))
@@ -1321,25 +1712,26 @@ def _oracle_mono(ctx, np, case, raw, ucell, d, cfg, res, info, label):
     if np.abs(np.asarray(disl.box.vects)[line] - lv).max() > 1e-12 * sc:
         ctx.violate(key + ':line-vector', f'{label}: the periodic box vector changed', info)
         return
-    # the field is invariant along the line: atoms that are images along the line stay images
     # boundary: re-typed exactly outside the region
-    if width > 0.0:
-        shape = cfg.get('boundaryshape', 'cylinder')
-        out, marg = _region_outside(np, d, base.box, width, shape, np.asarray(disl.atoms.pos))
-        flagged = ta != tb
-        bad = np.where((flagged != out) & (marg > 1e-7 * sc))[0]
-        if len(bad):
-            i = int(bad[0])
-            ctx.violate(key + ':boundary', f'{label}: atom {i} at {np.asarray(disl.atoms.pos)[i].tolist()} is '
-                        f'{"outside" if out[i] else "inside"} the {shape} region of width {width} but '
-                        f'{"is" if flagged[i] else "is not"} re-typed ({len(bad)} atoms)', info)
-            return
-        if tuple(disl.symbols) != tuple(base.symbols) * 2:
-            ctx.violate(key + ':symbols', f'{label}: symbols {disl.symbols}', info)
-            return
-    elif np.any(ta != tb):
-        ctx.violate(key + ':boundary-zero-width', f'{label}: atoms re-typed although boundarywidth = 0', info)
+    shape = cfg.get('boundaryshape', 'cylinder')
+    if not _check_boundary(ctx, np, d, cfg, base, disl, shape, width, info, label, key):
         return
+    if not cfg.get('probe'):
+        for pc in _probe_cfgs(np, ctx.rng, d, base, disl, cfg, shape, sc):
+            pres = run_config(d, pc)
+            pinfo = dict(info, cfg=pc)
+            plab = label.rsplit(" {'kind'", 1)[0] + ' ' + str(pc)
+            if pres[0] == 'err':
+                if not (pres[1] == 'assert' and shape == 'cylinder'):
+                    ctx.violate(key + ':probe-refusal', f'{plab}: refused ({pres[1:]}) although the same configuration with '
+                                f'boundarywidth {width} was generated', pinfo)
+                    return
+                continue
+            if np.abs(np.asarray(pres[2].atoms.pos) - np.asarray(disl.atoms.pos)).max() > 0.0:
+                ctx.violate(key + ':width-moves-atoms', f'{plab}: the positions depend on the boundary width', pinfo)
+                return
+            if not _check_boundary(ctx, np, d, pc, pres[1], pres[2], shape, pc['boundarywidth'], pinfo, plab, key):
+                return
     _disregistry_check(ctx, np, d, base, disl, 'mono', cfg, info, label)
 
 
@@ -1347,7 +1739,12 @@ def _oracle_array(ctx, np, case, raw, ucell, d, cfg, res, info, label):
     key = 'array'
     base, disl = res[1], res[2]
     line, cut, motion = d.lineindex, d.cutindex, d.motionindex
-    shift = np.asarray(d.shift, dtype=float)
+    shift = _requested_shift(ctx, np, d, cfg, info, label, key)
+    if shift is None:
+        return
+    if d.base_system is not base or d.disl_system is not disl:
+        ctx.violate(key + ':attributes', f'{label}: base_system / disl_system of the object are not the returned systems', info)
+        return
     qs, center, width = _resolved(d, cfg, ucell)
     bvec = np.asarray(d.dislsol.burgers)
     mvec = np.asarray(d.dislsol.m)
@@ -1422,11 +1819,20 @@ def _oracle_array(ctx, np, case, raw, ucell, d, cfg, res, info, label):
     cutoff = 0.5 if cutoff is None else cutoff
     thresh = min(cutoff, 0.3 * r_nn)
     if disl.natoms <= 1500:
-        rmin, pair = _min_image_pairs(np, np.asarray(disl.atoms.pos), nv, exp_pbc, thresh, across_only=True)
-        if rmin < thresh:
-            ctx.violate(key + ':overlap', f'{label}: atoms {pair} are {rmin:.4f} apart across the periodic directions '
-                        f'(nearest-neighbour distance {r_nn:.4f}, cutoff {cutoff})', info)
-            return
+        Lm_ = abs(bv[motion].dot(mvec))
+        for rmin, i_, j_ in _close_pairs(np, np.asarray(disl.atoms.pos), nv, exp_pbc, thresh):
+            allow = thresh
+            if not cfg.get('linear'):
+                # the elastic field of one dislocation is not periodic along m: at height y above the slip plane the two
+                # faces differ by b/2 - b atan(2y/L)/pi instead of the b/2 the tilted cell provides (isotropic screw
+                # value; factor 1.5 for anisotropy and the edge part): neighbours across the faces may approach by that
+                yy = max(abs((np.asarray(base.atoms.pos)[i_] - center).dot(nvec)),
+                         abs((np.asarray(base.atoms.pos)[j_] - center).dot(nvec)))
+                allow = min(thresh, r_nn - 1.5 * float(np.linalg.norm(bvec)) * math.atan(2 * yy / Lm_) / math.pi)
+            if rmin < allow:
+                ctx.violate(key + ':overlap', f'{label}: atoms {(i_, j_)} are {rmin:.4f} apart across the periodic directions '
+                            f'(nearest-neighbour distance {r_nn:.4f}, cutoff {cutoff}, allowed {allow:.4f})', info)
+                return
     # displacement of each remaining atom relative to its reference atom, modulo the periodic vectors
     L = abs(bv[motion].dot(mvec))
     p0 = np.asarray(base.atoms.pos) - center
@@ -1461,20 +1867,21 @@ def _oracle_array(ctx, np, case, raw, ucell, d, cfg, res, info, label):
         if sp[:, i].min() < -1e-9 or sp[:, i].max() > 1 + 1e-9:
             ctx.violate(key + ':wrapped', f'{label}: relative coordinate {i} outside [0, 1]', info)
             return
-    nt = base.natypes
-    ta, tb = np.asarray(disl.atoms.atype), np.asarray(base.atoms.atype)
-    if width > 0.0:
-        out, marg = _region_outside(np, d, base.box, width, 'array', np.asarray(disl.atoms.pos))
-        flagged = ta != tb
-        badb = np.where((flagged != out) & (marg > 1e-7 * sc))[0]
-        if len(badb) or not np.all((ta == tb) | (ta == tb + nt)):
-            i = int(badb[0]) if len(badb) else -1
-            ctx.violate(key + ':boundary', f'{label}: atom {i} re-typing does not match the boundary region of width {width}',
-                        info)
-            return
-    elif np.any(ta != tb):
-        ctx.violate(key + ':boundary-zero-width', f'{label}: atoms re-typed although boundarywidth = 0', info)
+    if not _check_boundary(ctx, np, d, cfg, base, disl, 'array', width, info, label, key):
         return
+    if not cfg.get('probe') and not cfg.get('linear'):
+        pass          # (elastic arrays: the surface layers, hence the positions, depend on the width: no width probes)
+    elif not cfg.get('probe'):
+        for pc in _probe_cfgs(np, ctx.rng, d, base, disl, cfg, 'array', sc, nmax=4):
+            pres = run_config(d, pc)
+            pinfo = dict(info, cfg=pc)
+            plab = label.rsplit(" {'kind'", 1)[0] + ' ' + str(pc)
+            if pres[0] == 'err':
+                ctx.violate(key + ':probe-refusal', f'{plab}: refused ({pres[1:]}) although the same configuration with '
+                            f'boundarywidth {width} was generated', pinfo)
+                return
+            if not _check_boundary(ctx, np, d, pc, pres[1], pres[2], 'array', pc['boundarywidth'], pinfo, plab, key):
+                return
     _disregistry_check(ctx, np, d, base, disl, 'array', cfg, info, label, ucell.box.a)
 
 
